@@ -171,6 +171,7 @@ def run(prog, run, only_restart_rules=False):
     r6_discard(prog, run)
     r7_dom_structure(prog, run)
     r8_keepalive(prog, run)
+    r9_close_after_elements(prog, run)
 
 
 APPENDS = ('append', 'operator+=', 'push_back')
@@ -679,3 +680,43 @@ def r8_keepalive(prog, run):
                           % (g.display()[:50], g.fmt(bad, inline=False)[:50]))
         else:
             run.ok(rid, g.loc(), '%s: %d error / close site(s), each behind a test of the element' % (g.display()[:50], len(sinks)))
+
+
+# --------------------------------------------------------------------------- R9: the closing tag is reported for the connection it was read from
+def r9_close_after_elements(prog, run):
+    rid = run.rule('C03.R9', 'processData reports the closing tag of the stream after it has delivered the elements of the same read; the handlers of those elements run synchronously '
+                             'and may have closed or replaced the connection (a <see-other-host/> error is followed at once), so the stream-closed signal is emitted only behind a '
+                             'test that the socket is still connected - otherwise error and closing tag in one read abort the new connection, in two reads they do not', floor=1)
+    pd = prog.fn(SOCK + '::processData')
+    emits = [i for i, n in pd.calls() if pd.cname(n) == SOCK + '::streamClosed']
+    elems = [i for i, n in pd.calls() if pd.cname(n) == SOCK + '::stanzaReceived']
+    if not emits or not elems:
+        raise AnalysisBroken('C03.R9: processData no longer emits stanzaReceived / streamClosed')
+    for i in emits:
+        run.instance(rid)
+        after_elements = any(pd.pos(e) and pd.pos(i) and e != i and _reaches(pd, pd.pos(e)[0], pd.pos(i)[0]) for e in elems)
+        guarded = False
+        for c, p in pd.atomic_assertions_at(i):
+            t = pd.fmt(c, inline=True)
+            if p is True and ('isConnected()' in t or ('::state()' in t and 'ConnectedState' in t)):
+                guarded = True
+        if not after_elements or guarded:
+            run.ok(rid, pd.loc(i), 'streamClosed() is emitted %s' % ('only while the socket is still connected' if guarded else 'before any element of the read'))
+        else:
+            run.violation(rid, 'processData#close-reported-for-replaced-connection', pd.loc(i),
+                          'processData emits streamClosed() after the elements of the same read without checking that the connection is still the one the tag was read from: a '
+                          'handler that followed a redirect has already started the next connection, and the closing tag of the old stream disconnects it (only when error and '
+                          'closing tag share a read)')
+
+
+def _reaches(f, a, b):
+    seen, work = set(), [a]
+    while work:
+        x = work.pop()
+        if x == b:
+            return True
+        if x in seen:
+            continue
+        seen.add(x)
+        work += [s_ for s_ in f.blocks[x]['succs'] if s_ is not None]
+    return False
